@@ -70,9 +70,9 @@ def regenerate(res):
     return rc == 0, out
 
 
-def build(mod):
+def build(mod, exe):
     with common.LeanLock():
-        rc, out = sh(['lake', 'build', mod, 'pgmdriver'], cwd=LEAN_DIR, timeout=3000)
+        rc, out = sh(['lake', 'build', mod, exe], cwd=LEAN_DIR, timeout=3000)
     return rc == 0, out
 
 
@@ -132,6 +132,8 @@ def main():
         print(f'no check registered for {pid}', file=sys.stderr)
         return 2
     lean_mod = mod.LEAN_MODULE
+    exe_name = 'pgmgen' if getattr(mod, 'NEEDS_GENERATED', False) else 'pgmdriver'
+    exe_path = common.DRIVER_GEN if exe_name == 'pgmgen' else common.DRIVER
     broken = []           # broken obligations (names / descriptions)
     thms, discharged = [], []
     try:
@@ -142,7 +144,7 @@ def main():
                 broken.append({'theorem': None, 'stage': 'translate', 'detail': out[-1500:]})
         # 2. build
         if not args.no_build:
-            ok, out = build(lean_mod)
+            ok, out = build(lean_mod, exe_name)
             if not ok:
                 errs = re.findall(r'error: ([^\n]+)', out)
                 broken.append({'theorem': None, 'stage': 'build', 'detail': '\n'.join(errs[:12]) or out[-1500:]})
@@ -153,8 +155,8 @@ def main():
             res.extra['axioms'] = {t: axioms.get(t) for t in thms}
             for p in problems:
                 broken.append({'theorem': p, 'stage': 'audit', 'detail': p})
-        driver_ok = os.path.exists(common.DRIVER) and not any(b['stage'] == 'build' for b in broken)
-        drv = common.Driver() if driver_ok else None
+        driver_ok = os.path.exists(exe_path) and not any(b['stage'] in ('build', 'translate') for b in broken)
+        drv = common.Driver(exe_path) if driver_ok else None
         # 4. correspondence (or replay)
         if args.replay:
             rp = json.load(open(args.replay))
